@@ -32,6 +32,9 @@ func (m *Mutex) Unlock() {
 	}
 	vrt.RaceRelease(m)
 	m.held = false
+	if vrt.UnlockPoints && !vrt.Aborting() {
+		vrt.Point("unlock", false, nil)
+	}
 }
 
 type RWMutex struct {
@@ -51,6 +54,9 @@ func (m *RWMutex) Unlock() {
 	}
 	vrt.RaceRelease(m)
 	m.writer = false
+	if vrt.UnlockPoints && !vrt.Aborting() {
+		vrt.Point("rwunlock", false, nil)
+	}
 }
 
 func (m *RWMutex) RLock() {
